@@ -209,3 +209,22 @@ PROPS["C12"] = dict(
     ],
     min_class_fraction={"parse_some_input_rejected": 0.3},
 )
+
+
+PROPS["C14"] = dict(
+    pkg="c14",
+    rule=("triples (a, b, c) of values: ints (dense around 0 and around 2^52 / 2^53-1), floats (quarters, +-0, +-Inf, NaN, neighbours of ints one "
+          "ulp away), strings (empty, unicode, common prefixes), bools, closures, nested lists (slice-backed, lazy, lazy-then-evaluated) and "
+          "maps (list map, hash map, put chain, merged) to depth 2; b and c are derived from their predecessor (same value in another "
+          "representation, numeric neighbour, int<->float twin, one element changed, key order rotated) or drawn fresh. Every ordered pair "
+          "is evaluated under = != < > <= >= ~ on the run-time path (operands as arguments) and on the constant-folding path (operands as "
+          "literals). Oracle: the laws themselves (symmetry and reflexivity of =, irreflexivity, asymmetry and transitivity of <, != is the "
+          "negation of =, > is swapped <, <= is < or =, >= is swapped <=, x~l is 'some element equals x', incomparable operands fail in all "
+          "six operators) plus a model comparator; containers holding both an unequal and an incomparable pair are order dependent: false or "
+          "error accepted, never true. min/max/list.min/list.max/minMax/order/switch must agree with < and =. Non-trivial: operands of "
+          "different kind or representation, containers of depth >=2, or adjacent ints; distinct = rendered triple."),
+    assumptions=["the model comparator is derived from the property text (ints and floats by numeric value, lists element-wise, maps key-wise)"],
+    jobs=[dict(name="c14", run="^TestPropC14$", kind="rapid", shards=16, checks={"quick": 100000, "thorough": 3000000},
+               guard={"quick": 900, "thorough": 7200})],
+    min_class_fraction={"container_depth_2plus": 0.03, "incomparable_pair": 0.1},
+)
